@@ -160,7 +160,7 @@ fn c14_default_capacity_is_8() {
 
 // ================================================================= selectors (C14 / C19)
 #[kani::proof]
-fn c14_segment_selector_codec() {
+fn c19_segment_selector_codec() {
     let idx: u16 = kani::any();
     kani::assume(idx < 8192);
     let r: u16 = kani::any();
